@@ -388,7 +388,7 @@ def drv_uncert(tier, nmodels, log):
             hmin = min(e if xv * e < 1e-6 else e * xv for xv in x for e in EPS)
             # documented branch: 0 <= x*eps < 1e-6 -> absolute step eps, one-sided stencil, first-order accurate by design
             doc_one_sided = any(abs(xv * e) < 1e-6 for xv in x for e in EPS)
-            ro = 256 * 2.0 ** -53 * ll_mag / (hmin ** 2 * float(np.max(np.abs(H))))
+            ro = 4096 * 2.0 ** -53 * ll_mag / (hmin ** 2 * float(np.max(np.abs(H))))
             info = dict(k=k, n=n, p0=p0.tolist(), B=lin.B.tolist(), B0=lin.B0.tolist(), data=d.tolist(), multinom=multinom, log=log, theta_adjusts=adj,
                         negative_logparam=neg, roundoff_floor=ro)
             key = (t, k, multinom, log, adj is not None)
